@@ -142,3 +142,102 @@ def replay(path):
 def selftest():
     print("selftest not yet implemented")
     return 0
+
+
+# ---------------------------------------------------------------- C05
+API_MC = {  # name: (Mode, Class, BufLen, fills quick, fills thorough, MaxBlk)
+    "Hc128": ("blk32", "b32", 16, "FillsHc", "FillsHc", 3),
+    "Isaac": ("blk32", "b32", 256, "FillsIsaacQ", "FillsIsaac", 3),
+    "Isaac64": ("blk64", "b64", 256, "FillsIsaac64Q", "FillsIsaac64", 3),
+    "Via_w32": ("via", "w32", 1, "FillsVia", "FillsVia", 6),
+    "Via_hi": ("via", "hi", 1, "FillsVia", "FillsVia", 6),
+    "Via_lo": ("via", "lo", 1, "FillsVia", "FillsVia", 6),
+    "Via_sm": ("via", "sm", 1, "FillsVia", "FillsVia", 6),
+    "Via_half": ("via", "half", 1, "FillsVia", "FillsVia", 6),
+}
+
+
+def run_api_mc(tier, wd, extra_props=""):
+    """Model-check the API machine (refinement ApiImpl => Stream) for every class; returns
+    {name: (tlc result, edges)}.  A violation here is a defect of the MODEL, reported as a tool error."""
+    import concurrent.futures, cover
+    def one(name):
+        mode, cls, blen, fq, ft, maxblk = API_MC[name]
+        cfg = os.path.join(wd, "MC_Api_%s.cfg" % name)
+        with open(cfg, "w") as f:
+            f.write('SPECIFICATION MCSpec\nCONSTANTS\n  Mode = "%s"\n  Class = "%s"\n  BufLen = %d\n  Fills <- %s\n  MaxBlk = %d\n'
+                    'CONSTRAINT Bound\nVIEW View\nINVARIANT TypeOK\nPROPERTY Refines\nPROPERTY NoSkipNoRepeat\nCHECK_DEADLOCK FALSE\n%s'
+                    % (mode, cls, blen, fq if tier == "quick" else ft, maxblk, extra_props))
+        big = name in ("Isaac", "Isaac64")
+        r = vlib.run_tlc(os.path.join(vlib.SPEC, "mc", "MC_Api.tla"), cfg, os.path.join(wd, "meta_" + name),
+                         workers=5 if big else 1, timeout=2400, xmx="4g")
+        if not r["completed"]:
+            raise ToolError("model checking of MC_Api_%s did not complete cleanly (the MODEL, not the code):\n%s" % (name, r["out"][-3000:]))
+        return name, r, cover.parse_edges(r["out"])
+    res = {}
+    with concurrent.futures.ThreadPoolExecutor(max_workers=8) as ex:
+        for name, r, edges in ex.map(one, list(API_MC)):
+            res[name] = (r, edges)
+    return res
+
+
+def c05_schedule(tier, seed, mc):
+    import cover, random
+    rng = random.Random(seed * 7919 + 5)
+    S = vlib.Sched()
+    stats = {}
+    for name, (r, edges) in mc.items():
+        block = name in ("Hc128", "Isaac", "Isaac64")
+        init, g = cover.project(edges, block)
+        if block and name != "Hc128":
+            # every small-n edge from every node; large-n edges from boundary indices only
+            keep_idx = {0, 1, 2, 127, 128, 129, 253, 254, 255, 256} if tier == "quick" else set(range(0, 257, 1))
+            small = 18 if tier == "quick" else 40
+            def select(s, e, keep_idx=keep_idx, small=small):
+                if e[0] != "fill_bytes" or e[1] <= small:
+                    return True if tier != "quick" else (s == ("init", 0) or s[0] % 4 in (0, 3) or s[0] >= 250)
+                return s == ("init", 0) or (s[0] in keep_idx and (tier != "quick" or e[1] % 4 == 1 or e[1] % 8 == 0))
+            if tier != "quick":
+                keep_idx = {0, 1, 2, 3, 63, 64, 127, 128, 129, 200, 253, 254, 255, 256}
+                def select(s, e, keep_idx=keep_idx):
+                    if e[0] != "fill_bytes" or e[1] <= 40:
+                        return True
+                    return s == ("init", 0) or s[0] in keep_idx
+        else:
+            def select(s, e):
+                return True
+        walks = cover.cover_walks(init, g, select, max_walk=120 if not block else 150)
+        nedges = sum(1 for s in g for e in g[s] if select(s, e))
+        stats[name] = {"graph_nodes": len(g), "graph_edges": sum(len(v) for v in g.values()), "edges_selected": nedges,
+                       "walks": len(walks), "walk_ops": sum(len(w) for w in walks)}
+        for kind in corpora.CLASS_KINDS[name]:
+            for wi, w in enumerate(walks):
+                S.case("%s cover %s #%d" % (kind, name, wi), corpora.api_case_ops(kind, w, rng))
+            # seeded random interleavings
+            nrand = (3 if tier == "quick" else 40)
+            bb = {"Hc128": 64, "Isaac": 1024, "Isaac64": 2048}.get(name)
+            for ri in range(nrand):
+                w = corpora.random_walk(rng, 40 if tier == "quick" else 120, corpora.WORDBYTES[kind], bb)
+                S.case("%s random %d" % (kind, ri), corpora.api_case_ops(kind, w, rng))
+    return S, stats
+
+
+def check_C05(tier, seed):
+    t0 = time.time()
+    wd = vlib.workdir("mc-C05")
+    mc = run_api_mc(tier, wd)
+    S, stats = c05_schedule(tier, seed, mc)
+    mc_states = sum(r["states"] for r, _ in mc.values())
+    mc_distinct = sum(r["distinct"] for r, _ in mc.values())
+    extra = {"mc_models": {n: {"states_generated": r["states"], "distinct_states_view": r["distinct"], "edges": len(e),
+                               "ops": {op: sum(1 for x in e if x[1][0] == op) for op in ("next_u32", "next_u64", "fill_bytes")}}
+                           for n, (r, e) in mc.items()},
+             "mc_properties": ["TypeOK", "Refines (ApiImpl => Stream, the C05 statement)", "NoSkipNoRepeat"],
+             "cover": stats, "mc_states_total": mc_states, "exhaustive": True,
+             "exhaustive_scope": "the abstract API machines are explored completely for the real buffer lengths 16 and 256 (fill lengths: all 0..137 for len 16; classes around 0, 1 and 2 blocks for len 256; blocks <= 3); the conformance side is a transition cover plus seeded random interleavings on all 20 generator types"}
+    rc = trace_check("C05", tier, seed, S, "Trace_Stream.tla", "Trace_Stream.cfg",
+                     rule="TLC explores ApiImpl (BlockRng / BlockRng64 / via-next, as in the code) exhaustively and checks the refinement to Stream (C05 as a spec) on every transition; its state graph is turned into a transition cover (every selected (index, half, op, n) edge) that is executed on the real types next to an identically seeded twin driven with native calls only; Trace_Stream validates every returned byte against Stream instantiated with the twin's words. distinct = distinct recorded events",
+                     assumptions=COMMON_ASSUME[:2] + ["the twin (same seed, native-width calls only) defines the native word stream, as in the property statement",
+                                                     "rand_core's BlockRng/BlockRng64/impls are a dependency: modelled in ApiImpl and bound by conformance, not verified themselves"],
+                     extra_cov=extra)
+    return rc
